@@ -51,25 +51,27 @@ def main():
     print('confirm:', json.dumps(meta['confirmed'])[:700])
     meta['checks'] = {}
     if ok:
-        rc, out = sh('git -C /repo status --porcelain')
-        assert out.strip() == '', 'repo not clean: ' + out
-        rc, out = sh('git -C /repo apply %s' % patch)
+        # the checks run against a scratch worktree carrying the change (ATHLIB_REPO), so /repo stays untouched and
+        # several changes can be examined at the same time
+        run = '/tmp/benignrun_%s' % sid
+        sh('git -C /repo worktree remove --force %s' % run)
+        sh('git -C /repo worktree add --detach %s HEAD' % run)
+        rc, out = sh('git -C %s apply %s' % (run, patch))
+        assert rc == 0, out
         try:
             for c in checks:
                 t0 = time.time()
-                rc, out = sh('cd /verif && bin/check %s --tier %s' % (c, tier))
+                rc, out = sh('cd /verif && ATHLIB_REPO=%s VERIF_EVIDENCE_DIR=%s bin/check %s --tier %s' % (run, os.path.join(dst, 'evidence'), c, tier))
                 viol = [l for l in out.splitlines() if l.startswith('VIOLATION')]
                 what = [l.strip() for l in out.splitlines() if l.strip().startswith('what:')][:4]
-                drift = [l.strip() for l in out.splitlines() if 'drift' in l.lower()][:4]
+                drift = [l.strip() for l in out.splitlines() if l.startswith('DRIFT')][:4]
                 meta['checks'][c] = {'tier': tier, 'exit': rc, 'violations': len(viol), 'first': what, 'drift_lines': drift,
                                      'wall_s': round(time.time() - t0, 1), 'summary': out.strip().splitlines()[-1][:300] if out.strip() else ''}
                 if rc != 0:
                     open(os.path.join(dst, 'alarm_%s.log' % c), 'w').write(out[-20000:])
-                print(c, 'exit', rc, 'violations', len(viol), what[:2])
+                print(sid, c, 'exit', rc, 'violations', len(viol), what[:2], flush=True)
         finally:
-            sh('git -C /repo checkout -- . && git -C /repo clean -fdq -- athlib js json sample-jsons scripts tests')
-            rc, out = sh('git -C /repo status --porcelain')
-            print('repo restored:', out.strip() == '', out.strip()[:200])
+            sh('git -C /repo worktree remove --force %s' % run)
     meta['alarm'] = any(v['exit'] != 0 or v['violations'] > 0 for v in meta['checks'].values())
     with open(os.path.join(dst, 'meta.json'), 'w') as f:
         json.dump(meta, f, indent=1)
